@@ -54,15 +54,19 @@ package dag
 //@   modifies nothing
 
 //@ func read
-//@   props C07 C03 C01
+//@   props C07 C03 C01 C05 C02
 //@   nopanic
 //@   pure wrapper
 //@   requires repo != nil && def.OperationUnmarshaler != nil
 //@   requires [wrapper-non-nil] forall e *Entity :: { wrapper(e) } e != nil ==> wrapper(e) != nil
-//@   modifies nothing
+//@   modifies repository.clockSeen
 //@   opt trusted_frame
 //@   ensures [non-nil]    err == nil ==> result != nil
 //@   ensures [ref-exists] err == nil ==> (ref in repository.refs)
+// C05: whatever an entity read from git holds - merge commits included - has been witnessed: the repository's
+// clocks are at least the times of every pack, so the next edit made here is stamped later than all of them.
+//@   check [all-packs-witnessed] err == nil ==> (forall h repository.Hash :: { oppMap[h] } (h in oppMap) ==> repository.clockSeen[def.Namespace + "-edit"] >= oppMap[h].EditTime && repository.clockSeen[def.Namespace + "-create"] >= oppMap[h].CreateTime)
+//@   ensures [clocks-monotone] forall n string :: { repository.clockSeen[n] } repository.clockSeen[n] >= old(repository.clockSeen[n])
 //@   defines [head]       err == nil ==> entity.entityHead(result) == repository.refs[ref]
 //@   check [head-is-ref]  err == nil ==> rootHash == repository.refs[ref]
 //@   check [clock-edge] err == nil ==> (forall k int :: { BFSOrder[k] } 0 <= k && k < len(BFSOrder) ==> (forall j int :: { BFSOrder[k].Parents[j] } 0 <= j && j < len(BFSOrder[k].Parents) ==> (BFSOrder[k].Parents[j] in oppMap) && oppMap[BFSOrder[k].Parents[j]].EditTime < oppMap[BFSOrder[k].Hash].EditTime))
@@ -77,6 +81,9 @@ package dag
 //@   loop 5
 //@     invariant forall j int :: { commit.Parents[j] } 0 <= j && j <= rangeindex ==> (commit.Parents[j] in oppMap) && oppMap[commit.Parents[j]].EditTime < opp.EditTime
 //@     invariant forall j int :: { commit.Parents[j] } 0 <= j && j <= rangeindex && len(commit.Parents) <= 1 ==> opp.EditTime - oppMap[commit.Parents[j]].EditTime <= 1000000
+//@   loop 6
+//@     invariant [seen-witnessed] forall h repository.Hash :: { iterseen[h] } iterseen[h] ==> repository.clockSeen[def.Namespace + "-edit"] >= oppMap[h].EditTime && repository.clockSeen[def.Namespace + "-create"] >= oppMap[h].CreateTime
+//@     invariant [monotone] forall n string :: { repository.clockSeen[n] } repository.clockSeen[n] >= old(repository.clockSeen[n])
 //@   loop 7
 //@     invariant forall k int :: { oppSlice[k] } 0 <= k && k < len(oppSlice) ==> oppSlice[k] != nil
 //@     invariant oppSlice == nil || fresh(oppSlice)
